@@ -511,6 +511,99 @@ MonDrift(S) ==
 
 
 (***************************************************************************)
+(* DRIFT.parser: action-level trace validation of the parser model.  For a  *)
+(* hook-traced attempt the caller goroutine's hook points between           *)
+(* stream.spawned and stream.parsed are replayed against Streamer!Step, one *)
+(* packet of the served stream per parser.gotEvent, with the handler and    *)
+(* mapper answers taken from the recorded calls: the hook sequence, the      *)
+(* deliveries (labels) and the position requested by the next attempt must  *)
+(* be exactly what the model's state says.  DRIFT.session compares the      *)
+(* abstract state predicted by TLC in a generated session (Gen_Session)     *)
+(* with the observed one after each attempt.  Like DRIFT.conn these decide   *)
+(* no property; they bind the operational model to the implementation.      *)
+(***************************************************************************)
+InjectedEv(plan) == [k |-> plan.inject.kind, cat |-> "none", fake |-> TRUE, ts |-> "0", end |-> "0"]
+WithInject(pk, plan) ==
+  IF plan.inject.kind = "none" THEN pk
+  ELSE LET i == Min2(plan.inject.at, Len(pk)) IN Sub(pk, 1, i) \o <<InjectedEv(plan)>> \o Sub(pk, i + 1, Len(pk))
+
+\* one parser iteration on event ev with the pending recorded answers hs (handler) and ms (mapper)
+StepInfo(st, ev, hs, ms, acc) ==
+  CHOOSE r \in
+    { LET del == Len(s2.delivered) > Len(st.delivered)
+          con == ev.k = "tablemap" /\ st.format /\ Consults(st, ev)
+      IN [s2 |-> s2,
+          hs |-> IF del /\ hs # <<>> THEN Tail(hs) ELSE hs,
+          ms |-> IF con /\ ms # <<>> THEN Tail(ms) ELSE ms,
+          acc |-> acc \o <<"parser.select", "parser.gotEvent">> \o
+                  (IF del THEN <<"parser.handlerCall", IF s2.status = "error" THEN "parser.handlerErr" ELSE "parser.handlerOk">> ELSE <<>>)]
+      : s2 \in {Step(st, ev, IF hs = <<>> THEN "ok" ELSE Head(hs), IF ms = <<>> THEN "ok" ELSE Head(ms))} } : TRUE
+
+RECURSIVE ParserFold(_, _, _, _, _, _, _)
+ParserFold(st, pk, i, n, hs, ms, acc) ==
+  IF i > n \/ i > Len(pk) \/ st.status # "run" THEN [st |-> st, hooks |-> acc, used |-> i - 1]
+  ELSE CHOOSE r \in {ParserFold(x.s2, pk, i + 1, n, x.hs, x.ms, x.acc) : x \in {StepInfo(st, pk[i], hs, ms, acc)}} : TRUE
+
+CallerHookNames(S, a) ==
+  LET hooks == SelectSeq(SubSeq(Trace, S.from, S.to), LAMBDA x : x.ev = "hook" /\ x.att = a /\ x.p \notin ReaderHooks)
+  IN [i \in 1..Len(hooks) |-> hooks[i].p]
+
+FirstIndex(q, v) == IF \E i \in 1..Len(q) : q[i] = v THEN CHOOSE i \in 1..Len(q) : q[i] = v /\ \A j \in 1..(i - 1) : q[j] # v ELSE 0
+
+MonDriftParser(S) ==
+  UNION {
+    LET sh    == CallerHookNames(S, a)
+        i0    == FirstIndex(sh, "stream.spawned")
+        i1    == FirstIndex(sh, "stream.parsed")
+        seg   == Sub(sh, i0 + 1, i1 - 1)
+        nGot  == Len(SelectSeq(seg, LAMBDA h : h = "parser.gotEvent"))
+        dump  == DumpOf(S, a)
+        D(w, g, k) == F("DRIFT.parser", S, [what |-> w, got |-> g, want |-> a, k |-> k, c |-> 0, typ |-> 0])
+    IN IF ~Plan(S, a).hookTrace \/ i0 = 0 \/ i1 = 0 \/ Len(dump) # 1 \/ Files(S) = <<>> THEN {}
+       ELSE LET pos == [file |-> dump[1].file, off |-> dump[1].off] IN
+            IF ~IsBoundary(Files(S), pos) THEN {}
+            ELSE UNION {
+              LET st   == r.st
+                  tail == IF st.status = "run" THEN Sub(seg, Len(r.hooks) + 1, Len(seg)) ELSE <<>>
+                  ds   == Delivered(S, a)
+                  nxt  == DumpOf(S, a + 1)
+              IN (IF Sub(seg, 1, Len(r.hooks)) = r.hooks /\
+                     (IF st.status = "run"
+                      THEN Len(tail) = 2 /\ tail[1] = "parser.select" /\ tail[2] \in {"parser.sawClosed", "parser.sawCtx"}
+                      ELSE Len(seg) = Len(r.hooks))
+                  THEN {} ELSE {D("the parser's hook sequence is not the one Streamer!Step predicts for the served packets", Len(seg), Len(r.hooks))}) \cup
+                 (IF Len(ds) = Len(st.delivered) /\ \A k \in 1..Len(ds) : ds[k].now = st.delivered[k].now /\ ds[k].next = st.delivered[k].next
+                  THEN {} ELSE {D("deliveries differ from the model's delivered sequence", Len(ds), Len(st.delivered))}) \cup
+                 (IF a + 1 < NAttempts(S) /\ Len(nxt) = 1 /\ ~(\E x \in {Lines(S, "setpos")[j] : j \in 1..Len(Lines(S, "setpos"))} : x.att = a + 1)
+                     /\ [file |-> nxt[1].file, off |-> nxt[1].off] # st.pos
+                  THEN {D("the next attempt did not request the model's position", a + 1, 0)} ELSE {})
+              : r \in {ParserFold(StInit(pos), WithInject(Served(Files(S), pos), Plan(S, a)), 1, nGot,
+                                  [j \in 1..Len(LinesAtt(S, "handlerReturn", a)) |-> IF LinesAtt(S, "handlerReturn", a)[j].res.nil THEN "ok" ELSE "err"],
+                                  [j \in 1..Len(LinesAtt(S, "mapperCall", a)) |-> LinesAtt(S, "mapperCall", a)[j].res], <<>>)} }
+    : a \in 0..(NAttempts(S) - 1)}
+
+\* generated sessions: the abstract state TLC predicted after each attempt (transactions accepted so far) is the observed one,
+\* for every attempt up to which the real run consumed exactly the packets the model consumed
+RECURSIVE Aligned(_, _)
+Aligned(S, a) ==
+  IF a < 0 THEN TRUE
+  ELSE LET m == Scen(S).model.attempts[a + 1]
+           nGot == Len(SelectSeq(CallerHookNames(S, a), LAMBDA h : h = "parser.gotEvent"))
+       IN nGot = m.n /\ Aligned(S, a - 1)
+RECURSIVE AcceptedUpTo(_, _)
+AcceptedUpTo(S, a) ==
+  IF a < 0 THEN 0 ELSE Len(SelectSeq(LinesAtt(S, "handlerReturn", a), LAMBDA x : x.res.nil)) + AcceptedUpTo(S, a - 1)
+
+MonDriftSession(S) ==
+  IF Scen(S).fam # "c04g" THEN {}
+  ELSE UNION {
+    IF Aligned(S, a) /\ AcceptedUpTo(S, a) # Scen(S).model.attempts[a + 1].acc
+    THEN {F("DRIFT.session", S, [what |-> "transactions accepted so far differ from the session model's state after the attempt",
+                                  got |-> AcceptedUpTo(S, a), want |-> Scen(S).model.attempts[a + 1].acc, k |-> a, c |-> 0, typ |-> 0])}
+    ELSE {}
+    : a \in 0..(NAttempts(S) - 1)}
+
+(***************************************************************************)
 (* Dispatch and the replay state machine.                                  *)
 (***************************************************************************)
 \* end-to-end halves of the value properties: the delivered cells of the property's column kinds match the oracle
@@ -521,11 +614,11 @@ Mon(p, S) ==
     [] p \in {"C09", "C10", "C11", "C12", "C13", "C14"} -> MonE2E(p, S)
     [] p = "C02" -> MonC02(S)
     [] p = "C03" -> MonC03(S)
-    [] p = "C04" -> MonC04(S)
+    [] p = "C04" -> MonC04(S) \cup MonDriftParser(S) \cup MonDriftSession(S)
     [] p = "C07" -> MonC07(S)
     [] p = "C17" -> MonC17(S)
     [] p = "C15" -> MonC15(S)
-    [] p = "C05" -> MonC05(S) \cup MonDrift(S)
+    [] p = "C05" -> MonC05(S) \cup MonDrift(S) \cup MonDriftParser(S)
     [] p = "C06" -> MonC06(S)
     [] p = "C08" -> MonC08(S)
 
